@@ -9,7 +9,7 @@ lxml's verdict on "<div>"+output+"</div>" and its text content (the judge C11 na
 """
 import re
 
-TAG = {"oi": "<i>", "ci": "</i>", "ob": "<b>", "cb": "</b>", "op": "<p>", "cp": "</p>", "sc": "<br/>"}
+TAG = {"oi": "<i>", "ci": "</i>", "ob": "<b>", "cb": "</b>", "op": "<p>", "cp": "</p>", "sc": "<br/>", "od": "<div>", "cd": "</div>"}
 SPLIT = re.compile(r'(<a id="\d+">|</a>)')
 
 
